@@ -108,7 +108,7 @@ def build_tree(seq_py, seq_js, bare=None):
     bare = None | 'nl' | 'nonl': each file consists of exactly its first function and nothing else (no preamble, no
     blank lines), with or without a final newline - the shape a file-size shortcut would misjudge"""
     files, truth = {}, {}
-    if bare:
+    if bare in ("nl", "nonl"):
         for fname, seq, gen in (("a.py", seq_py, harness.py_function), ("b.js", seq_js, harness.js_function)):
             if seq:
                 text = gen(f"{fname[0]}0", seq[0])
@@ -123,7 +123,8 @@ def build_tree(seq_py, seq_js, bare=None):
         line = 2
         t = []
         for i, L in enumerate(seq):
-            name = f"{fname[0]}{i}"
+            # mode 'dup': every function of the file has the SAME name (overloads, several __init__): still one finding each
+            name = f"{fname[0]}dup" if bare == "dup" else f"{fname[0]}{i}"
             text += "\n" + gen(name, L)
             line += 1
             t.append((name, L, line))
@@ -214,7 +215,9 @@ def eval_tree(seq_py, seq_js, bare=None):
             if (n_listed == 0) != happy or nfun != n_listed:
                 out.append(("summary-count-wrong", sig, f"summary says {nfun} (happy={happy}), listed/expected {n_listed}"))
 
-    with harness.temp_tree(files) as root, harness.cwd(root):
+    # every other tree lives below a hidden directory (a workspace under ~/.cache, ~/.local, .worktrees/...)
+    under = ".ci/ws" if (len(seq_py) + len(seq_js)) % 2 else None
+    with harness.temp_tree(files, under=under) as root, harness.cwd(root):
         for paths in ([Path(".")], [Path("a.py"), Path("b.js")], [Path("."), Path("a.py")], [Path("a.py"), Path("b.js"), Path("a.py")]):
             for quiet in (False, True):
                 judge(paths, quiet, False, 2)
@@ -351,6 +354,9 @@ def run(ctx: core.Ctx):
     bare_lengths = [2, 15, 16, 29, 30, 31, 32, 59, 60, 61, 62]
     bare = [((L,), (M,), b) for L in bare_lengths for M in bare_lengths for b in ("nl", "nonl") if L == M or (L, M) in ((31, 2), (2, 31), (61, 31))]
     blocks += [("bare", bare[i:i + 6]) for i in range(0, len(bare), 6)]
+    dup = [((40, 35), (65, 45, 45), "dup"), ((31, 31), (61,), "dup"), ((61, 61, 10), (31,), "dup"), ((10, 10), (12, 31), "dup")]
+    blocks += [("bare", dup)]
+    ctx.bounds["files_whose_functions_share_one_name"] = [list(map(list, d[:2])) for d in dup]
     nested = [(o, i, lang) for o in (5, 16, 31, 61) for i in (5, 16, 31, 61) for lang in ("Python", "JavaScript")]
     blocks += [("nested", nested[i:i + 4]) for i in range(0, len(nested), 4)]
     ctx.bounds["bare_single_function_files"] = {"lengths": bare_lengths, "final_newline": ["yes", "no"]}
